@@ -45,6 +45,25 @@ for, RT /d_recv datagrams fit a UDP datagram (definitions tuned to the byte
 around 65504), readers return what the independent parse of the file predicts
 (metadata: what the harness reads back as JSON), match/at/remove_at follow a
 dict model.
+
+Round 9 - a fault followed by continued use inside one build, after the
+helper's controls exist (vf/c02_wrapbody.py; every second case of the 'wrap'
+shard is such a program, kind 'wrapbody').  The 'wrap' programs fail before
+SynthDef.wrap has registered anything (bad rate annotation).  Here the wrapped
+helper has parameters (kr / ir / tr / ar / lag / array / prepended) and fails in
+its BODY - user exception, exception raised by the library (refused operator,
+rejected nested wrap, ...), misuse of the control objects - in five forms
+(own statement, after a valid inner wrap, inner helper fails, both, helper
+that handles its inner helper's failure), handled by `except Exception` or by
+the precise class, with and without fall-back wraps / rejected wraps / further
+body failures afterwards.  The predicates are the ones above: the control
+units partition the control table (C02/control-slot-out-of-range, -covered-
+twice, -without-unit), declared controls carry their default / unit class /
+rate, the reader accepts the bytes.  The controls of a failed helper may be
+kept (today's behaviour) or dropped, level by level; whichever the name table
+shows is what defaults and units are compared with, and when all are kept the
+bytes equal those of the twin whose helpers lack the failing statement
+(C02/failed-wrap-leaves-residue/body-failure-bytes-differ).
 """
 
 import io
@@ -67,7 +86,11 @@ def safe(fn, *a):
 LEVEL = 'exploration'
 RULE = ("seeded random programs as data (vf/gen_graph.py:gen_program_c02) of "
         "kinds plain / wrap (graph functions that recover from a SynthDef.wrap "
-        "rejected for a bad rate annotation, then wrap valid helpers) / mc "
+        "rejected for a bad rate annotation, then wrap valid helpers) / wrapbody "
+        "(vf/c02_wrapbody.py: the wrapped helper has 1-4 parameters and fails in "
+        "its body after its controls were built, 27 faults raised by the user / "
+        "the library / Python on control objects, 5 nesting forms, followed or "
+        "not by fall-back wraps) / mc "
         "(multichannel expansion, nested lists) / wf (width-"
         "first units, FFT chains) / big (150-420 nodes, up to 300 distinct "
         "constants) / variants / invalid:<9 defects>, each with a random "
@@ -95,6 +118,12 @@ ASSUMPTIONS = [
     "width-first ordering check",
     "exceptions raised by the SynthDef constructor for *valid* programs are "
     "C01's subject and only counted here",
+    "wrapbody: what becomes of the controls of a helper that failed in its body "
+    "is not specified; kept as a whole or dropped as a whole per wrap level is "
+    "accepted, a fall-back helper never reuses the parameter names of a helper "
+    "that failed in its body (duplicated names would be the caller's doing); "
+    "faults that leave a half-constructed unit behind (In.ar(0, 0), "
+    "EnvGen.kr(None)) are not used",
     "routes: vf/osc.py decodes the captured packets; an absent completion "
     "message may be omitted or sent as int 0 / nil; a definition too big for a "
     "datagram may reach a local server as /d_load of a file with exactly its "
@@ -126,8 +155,18 @@ MIN_COUNTERS = {
               'definitions_parsed_big': 20,
               'definitions_parsed_mc': 200, 'definitions_parsed_wf': 200,
               'variant_blocks_checked': 50, 'names_longer_than_200': 20,
-              'recovered_failing_wraps': 300,
-              'failed_wrap_twins_compared': 250,
+              'recovered_failing_wraps': 100,
+              'failed_wrap_twins_compared': 100,
+              'recovered_body_failures': 150,
+              'body_failure_definitions_judged': 100,
+              'body_failure_raised_by_user': 30,
+              'body_failure_raised_by_library': 40,
+              'body_failure_raised_by_python': 15,
+              'body_failure_followed_by_fallback_wrap': 80,
+              'body_failure_is_last_control_creator': 5,
+              'body_failure_form_own': 40,
+              'body_failure_form_inner-fails': 10,
+              'body_failure_form_outer-ok-inner-caught': 10,
               'unwritable_retries_checked': 500,
               'unwritable_corrections_checked': 60,
               'definitions_parsed_bigarray': 100,
@@ -159,7 +198,17 @@ MIN_COUNTERS = {
                  'definitions_parsed_wf': 5000, 'variant_blocks_checked': 2000,
                  'names_longer_than_200': 500,
                  'recovered_failing_wraps': 20000,
-                 'failed_wrap_twins_compared': 15000,
+                 'failed_wrap_twins_compared': 10000,
+                 'recovered_body_failures': 12000,
+                 'body_failure_definitions_judged': 8000,
+                 'body_failure_raised_by_user': 3000,
+                 'body_failure_raised_by_library': 4000,
+                 'body_failure_raised_by_python': 2000,
+                 'body_failure_followed_by_fallback_wrap': 7000,
+                 'body_failure_is_last_control_creator': 800,
+                 'body_failure_form_own': 4000,
+                 'body_failure_form_inner-fails': 1500,
+                 'body_failure_form_outer-ok-inner-caught': 1500,
                  'unwritable_retries_checked': 20000,
                  'unwritable_corrections_checked': 3000,
                  'definitions_parsed_bigarray': 3000,
@@ -822,6 +871,9 @@ def folding_explains(prog, gg, scgf):
     try:
         with no_folding():
             d = scgf.parse(bytes(gg.build(prog).as_bytes()))
+        if prog.get('kind') == 'wrapbody':
+            from vf import c02_wrapbody as wb
+            prog, _ = wb.resolve(prog, [nm for nm, _ in d.param_names])
         scratch = Acc('C02', 'probe', 0, 'quick')
         return not (structure(d, prog, gg, scratch)
                     or order(d, prog, gg, scratch))
@@ -830,7 +882,7 @@ def folding_explains(prog, gg, scgf):
 
 
 def run_shard(spec, acc):
-    from vf import gen_graph as gg, scgf
+    from vf import gen_graph as gg, scgf, c02_wrapbody as wb
     from sc3.synth.synthdesc import SynthDesc
     kind0 = spec['shard']['kind']
     cat = build_catalogue(gg, scgf, acc) if kind0 == 'invalid-ctor' else None
@@ -850,6 +902,12 @@ def run_shard(spec, acc):
         if kind0 == 'invalid-ctor':
             prog, kind = invalid_ctor_program(rng, i, cat, gg)
             acc.count('invalid_ctor_programs')
+        elif kind0 == 'wrap' and i % 2:
+            # the helper fails in its body, after its controls were built
+            kind = 'wrapbody'
+            prog = wb.gen_program(rng, gg)
+            for k, v in wb.stats(prog).items():
+                acc.count(k, v)
         else:
             prog = gg.gen_program_c02(rng, kind)
         sig = h64(json.dumps([prog['name'], prog['params'], prog['nodes'],
@@ -934,7 +992,7 @@ def run_shard(spec, acc):
             d = scgf.parse(raw)
         except scgf.ScgfError as e:
             problems.append((f'C02/not-scgf/{err_code(str(e))}', str(e)))
-            if kind == 'wrap':
+            if kind in ('wrap', 'wrapbody'):
                 acc.count('recovered_failing_wraps', sum(
                     nd['k'] == 'wrapfail' for nd in prog['nodes']))
                 for how in ('new_from', 'read_stream'):   # the library's reader
@@ -959,8 +1017,33 @@ def run_shard(spec, acc):
             acc.count('definitions_parsed_' + kind.split(':')[0])
             acc.maxi('max_units_in_a_definition', len(d.units))
             acc.maxi('max_constants_in_a_definition', len(d.constants))
+            kept = True
+            if kind == 'wrapbody':
+                # which of the failed helpers' controls the name table shows
+                prog, how = wb.resolve(prog, [nm for nm, _ in d.param_names])
+                acc.count('body_failure_definitions_judged')
+                acc.count('body_failure_controls_' + how)
+                kept = how == 'kept'
             problems += structure(d, prog, gg, acc)
             problems += order(d, prog, gg, acc)
+            if kind == 'wrapbody' and kept:
+                # the fault itself leaves nothing behind: same bytes as the
+                # program whose helpers lack the failing statement
+                acc.count('recovered_failing_wraps', sum(
+                    nd['k'] == 'wrapfail' for nd in prog['nodes']))
+                try:
+                    twin = bytes(gg.build(wb.twin(prog, gg)).as_bytes())
+                    acc.count('body_failure_twins_compared')
+                    if twin != raw:
+                        k0 = next((k for k, (x, y) in enumerate(zip(raw, twin))
+                                   if x != y), min(len(raw), len(twin)))
+                        problems.append((
+                            'C02/failed-wrap-leaves-residue/'
+                            'body-failure-bytes-differ',
+                            f'{len(raw)} bytes with the failing statements, '
+                            f'{len(twin)} without; first difference at {k0}'))
+                except Exception:
+                    acc.count('body_failure_twin_did_not_build')
             if kind == 'wrap':
                 # a rejected helper leaves nothing behind: same bytes as the
                 # program that goes straight to the fallback
